@@ -48,7 +48,13 @@ Ltac minv_with lem H :=
       let Ha := fresh "Ha" in
       apply and64_inv in H; destruct H as [[Ha H]|[Ha H]];
       [ rewrite ?Ha; cbn [orb andb negb]; minv_with lem H | rewrite ?Ha; cbn [orb andb negb]; subst ]
-  | (if ?c then _ else _) = Some (_, true) => destruct c eqn:?; minv_with lem H
+  | (if ?c then _ else _) = Some (_, true) =>
+      cbn [negb andb orb] in H;
+      lazymatch type of H with
+      | (if ?c' then _ else _) = Some (_, true) =>
+          destruct c' eqn:?; first [ solve [ exfalso; cbn [negb andb orb] in *; congruence ] | minv_with lem H ]
+      | _ => minv_with lem H
+      end
   | (let _ := _ in _) = Some (_, true) => cbv zeta in H; minv_with lem H
   | (match ?x with pair _ _ => _ end) = Some (_, true) => destruct x eqn:?; minv_with lem H
   | _ => first [ lem H | idtac ]
